@@ -337,6 +337,11 @@ func (sc *SubCache[EntityT, ExcerptT, CacheT]) AllIds() []entity.Id {
 	sc.mu.RLock()
 	defer sc.mu.RUnlock()
 
+	return sc.allIds()
+}
+
+// allIds is AllIds for callers that already hold the lock
+func (sc *SubCache[EntityT, ExcerptT, CacheT]) allIds() []entity.Id {
 	result := make([]entity.Id, len(sc.excerpts))
 
 	i := 0
